@@ -237,6 +237,7 @@ PROPS = {
                                        "C11.V.init_recurse.empty_chance", "C11.V.init_recurse.single_outcome_elided", "C11.V.init_recurse.empty_player", "C11.V.init_recurse.player_dispatch",
                                        "C11.V.init_recurse.single_action_same", "C11.V.init_recurse.single_action_recorded_once", "C11.V.init_recurse.actions_and_children_paired"]),
                U("c11_chance_normalise", ["C11.V.init_recurse.chance_probabilities_normalised"]),
+               U("c11_from_root_skeleton", ["C11.V.from_root.is_its_phases (from_root = empty tables, ONE recursive construction on the caller's root, conversion of the filled tables: no further check or error source)"]),
                U("c11_compact", ["C11.V.compact.entry_index", "C11.V.compact.insert_returns_index", "C11.V.compact.get_returns_index", "C11.V.compact.dense_preserved", "C11.V.compact.new_dense", "C11.V.compact.into_iter_entry"]),
                U("c11_compact_opt", ["C11.V.compact_opt.entry_index (chance infosets: same dense indices)", "C11.V.compact_opt.anonymous_is_new (a chance node without an infoset label is always its own infoset)", "C11.V.compact_opt.fresh_key", "C11.V.compact_opt.new", "C11.V.compact_opt.into_iter_entry"]),
                U("c11_constructors", ["C11.V.constructors.chance_infoset", "C11.V.constructors.chance_node", "C11.V.constructors.player_builder", "C11.V.constructors.player_infoset", "C11.V.constructors.num_actions"])],
